@@ -46,3 +46,31 @@ Proof.
   intros nt H. destruct (net_okb_parts nt H) as [Hs Hm].
   exact (model_is_spec nt (motif_identities_general nt Hs Hm)).
 Qed.
+
+(* the OBJECT (evaluator caches persist over the queries) and the extracted reduced-fraction model
+   return the specification's values, for every well-formed network *)
+Lemma Forall2_Qeq_map_trans : forall (l : list Q) (f g : Q -> Q) xs,
+    Forall2 Qeq l (map f xs) -> (forall x, f x == g x) -> Forall2 Qeq l (map g xs).
+Proof.
+  intros l f g xs H Hfg. revert l H. induction xs as [|x xs IH]; intros l H; cbn [map] in *.
+  - inversion H. constructor.
+  - inversion H as [|a b l' m' Hab Hl]. subst. constructor; [rewrite Hab; apply Hfg|apply IH, Hl].
+Qed.
+
+Theorem object_is_spec : forall nt T phis, net_okb nt = true ->
+    Forall2 Qeq (mp_object nt T phis) (map (mp_spec nt T) phis).
+Proof.
+  intros nt T phis H. destruct (net_okb_parts nt H) as [Hs _].
+  apply (Forall2_Qeq_map_trans _ (mp_model nt T)).
+  - exact (history_fresh alg_q nt T alg_q_proper Hs phis caches_empty (cache_inv_empty (net_naming nt))).
+  - intros phi. apply model_is_spec_unconditional, H.
+Qed.
+
+Theorem wire_model_is_spec : forall nt T phis, net_okb nt = true ->
+    Forall2 Qeq (mp_history (eqn_cached alg_qr) nt T caches_empty phis) (map (mp_spec nt T) phis).
+Proof.
+  intros nt T phis H. destruct (net_okb_parts nt H) as [Hs _].
+  apply (Forall2_Qeq_map_trans _ (mp_model nt T)).
+  - exact (history_fresh alg_qr nt T alg_qr_q Hs phis caches_empty (cache_inv_empty (net_naming nt))).
+  - intros phi. apply model_is_spec_unconditional, H.
+Qed.
